@@ -692,7 +692,9 @@ def mem_image(mm):
                 a += len(p)
             else:
                 n = p.size // 8
-                if p._is_def:
+                if p._is_def or p._is_top:
+                    # an expression, or `top` (unknown: what SHLD/SHRD with a count in cl become on the symbolic
+                    # route) — "stays symbolic"; only a bottom (never written) counts as unmapped
                     sym.append((a, n))
                 a += n
     other = any(k is not None and zz._map for k, zz in mm._zones.items())
